@@ -27,9 +27,9 @@ PENDING = {
  'C04': 'in progress: interleaving model + controlled scheduler not yet committed',
  'C05': 'in progress: interleaving model + controlled scheduler not yet committed',
  'C06': 'in progress: Fork/Split/Join model not yet committed',
- 'C07': 'in progress: collator order proofs not yet committed',
- 'C08': 'in progress: collator equality proofs not yet committed',
- 'C10': 'in progress: CDCN formatter/parser model not yet committed',
+ 'C07': 'in progress: the collator correspondence runs (./check C07 passes) but the order proofs (CollateProofs.v, C07.v) are still being written; not claimed until they are committed',
+ 'C08': 'in progress: the collator correspondence runs (./check C08 passes) but the equality proofs (CollateProofs.v, C08.v) are still being written; not claimed until they are committed',
+ 'C10': 'in progress: the scanner/parser model (C11, C12) is committed; the formatter model and the round-trip theorems are still being written; not claimed until they are committed',
  'C11': 'in progress: CDCN grammar model not yet committed',
  'C12': 'in progress: CDCN lexer/parser totality model not yet committed',
  'C13': 'in progress: stack proofs being integrated',
@@ -61,7 +61,7 @@ def main():
                            level_note=note, technique='Coq proof over executable Gallina model; ' + tech))
     man = dict(version=1, setup_cmd='./check setup',
                hooks=dict(guard='verif', enable='go build -tags verif (the harness module replaces the library by /repo/v4)',
-                          baseline_off_cmd='cd /repo/v4 && go test -vet=off -count=1 ./...', source_commits=[], add_only=True),
+                          baseline_off_cmd='cd /repo/v4 && go test -vet=off -count=1 ./...', source_commits=['c0baff0', '0e74f57'], add_only=True),
                engines=[dict(name='coq-correspondence', path='check', serves_properties=sorted(CLAIMED),
                              kind_free_text='Coq 8.16.1 development (coq/) with machine-checked theorems over executable models; Go harness (harness/) driving the real library; coqc evaluates the model on the generated cases (vm_compute) and reports mismatches; tools/genparams.py regenerates coq/Params.v from the sources on every run')],
                checks=checks,
